@@ -380,10 +380,15 @@ pub fn sweep(thorough: bool, panic_only: bool) -> (u64, Vec<(String, String)>) {
                             if omitted {
                                 t.push(Post { account: "D", amount: None, cost: None, lot: None, assertion: None });
                             }
-                            evaluated += 1;
-                            if let Some(b) = check(&[t], &["Y"]).filter(|b| !panic_only || b.1.contains("panicked")) {
-                                if bad.len() < 12 {
-                                    bad.push(b);
+                            // several fresh contexts per ledger: the per-commodity totals live in a hash map whose
+                            // iteration order differs from one context to the next
+                            for _ in 0..4 {
+                                evaluated += 1;
+                                if let Some(b) = check(&[t.clone()], &["Y"]).filter(|b| !panic_only || b.1.contains("panicked")) {
+                                    if bad.len() < 12 {
+                                        bad.push(b);
+                                    }
+                                    break;
                                 }
                             }
                         }
